@@ -2,7 +2,7 @@
 
 spec:     specs/ntor/Ntor.tla (symbolic terms; every configuration of who used / saw which key),
           NtorTrace.tla
-binding:  every configuration of the model (TLC-generated, 1024) is instantiated with fresh random keys
+binding:  every configuration of the model (TLC-generated, 1536) is instantiated with fresh random keys
           (with and without Elligator representatives, identity keys from hex) and every low-order /
           non-canonical u-coordinate, and run through the real exported API; TLC validates the ok flags
           and the equality pattern of the real outputs against the terms, plus equality with an
@@ -16,8 +16,8 @@ def run(ctx):
     quick = ctx.quick()
     cfgs, r = ctx.tlc_emit("Ntor", "Ntor_MC.cfg", tag="CFG", label="symbolic ntor: all configurations", count=True)
     cfgs = [c["cfg"] for _n, c in cfgs]
-    if len(cfgs) != 1024:
-        raise Inconclusive("expected 1024 configurations, got %d" % len(cfgs))
+    if len(cfgs) != 1536:
+        raise Inconclusive("expected 1536 configurations, got %d" % len(cfgs))
     reps = 6 if quick else 60
     scen = []
     for i in range(0, len(cfgs), 64):
@@ -43,7 +43,7 @@ def run(ctx):
                         "'equal to an independent computation' is decided in the driver against ref/obfs4 (own transcript code over x/crypto X25519 and HMAC)"]
     return ctx.finish("model_checking", extra_cov={
         "exhaustive": True, "configurations": len(cfgs), "instantiations_per_configuration": reps, "events_validated": nev,
-        "rule": "all 1024 configurations of Ntor.tla x %d fresh key sets (Elligator / plain / from-hex keys; low-order class cycles through all 14 "
+        "rule": "all 1536 configurations of Ntor.tla x %d fresh key sets (Elligator / plain / from-hex keys; low-order class cycles through all 14 "
                 "encodings of low-order u-coordinates, non-canonical class through u+p and top-bit-set encodings); single-input changes; KDF lengths" % reps})
 
 
